@@ -183,7 +183,9 @@ func (b *Builder) Grouping(o interface{}, ident string) *Grouping {
 		b.setErr(fmt.Errorf("%T does not support groupings", o))
 	} else {
 		g.originalParent = h.(Definition)
-		h.addGrouping(&g)
+		if err := h.addGrouping(&g); err != nil {
+			b.setErr(err)
+		}
 	}
 
 	return &g
@@ -576,7 +578,9 @@ func (b *Builder) Case(o interface{}, ident string) *ChoiceCase {
 	} else {
 		x.parent = h
 		x.originalParent = h
-		h.addCase(&x)
+		if err := h.addCase(&x); err != nil {
+			b.setErr(err)
+		}
 	}
 	return &x
 }
@@ -604,7 +608,9 @@ func (b *Builder) Action(o interface{}, ident string) *Rpc {
 	} else {
 		x.parent = h
 		x.originalParent = h
-		h.addAction(&x)
+		if err := h.addAction(&x); err != nil {
+			b.setErr(err)
+		}
 	}
 	return &x
 }
@@ -645,7 +651,9 @@ func (b *Builder) Notification(o interface{}, ident string) *Notification {
 	} else {
 		x.parent = h
 		x.originalParent = h
-		h.addNotification(&x)
+		if err := h.addNotification(&x); err != nil {
+			b.setErr(err)
+		}
 	}
 	return &x
 }
@@ -736,7 +744,9 @@ func (b *Builder) Typedef(o interface{}, ident string) *Typedef {
 	} else {
 		t.parent = h.(Meta)
 		t.originalParent = h.(Definition)
-		h.addTypedef(&t)
+		if err := h.addTypedef(&t); err != nil {
+			b.setErr(err)
+		}
 	}
 	return &t
 }
